@@ -244,11 +244,11 @@ func (r *Run) flush() {
 		return
 	}
 	var sb strings.Builder
-	sb.WriteString("From V Require Import Base.Bytes Base.Obs " + r.RunModule)
+	sb.WriteString("From V Require Import Base.Bytes Base.Obs")
 	for _, m := range r.Imports {
 		sb.WriteString(" " + m)
 	}
-	sb.WriteString(".\n")
+	sb.WriteString(" " + r.RunModule + ".\n") // last: its [case] and [run] must not be shadowed
 	sb.WriteString(r.Prelude)
 	sb.WriteString("Definition cases : list (case * bytes) := [\n")
 	sb.WriteString(strings.Join(r.cur, ";\n"))
